@@ -369,6 +369,7 @@ async fn run_case(sock: PathBuf, ops: Vec<String>) -> Vec<String> {
                             w.flush().await.ok();
                             let mut acked = false;
                             let started = tokio::time::Instant::now();
+                            let mut quiet_after_done = 0u32;      // a late subscriber stops after four quiet periods (1.6 s) once everybody else is done
                             let mut events = 0usize;
                             loop {
                                 // a late subscriber cannot know how many events it will get: it stops when everybody else is done and
@@ -379,13 +380,14 @@ async fn run_case(sock: PathBuf, ops: Vec<String>) -> Vec<String> {
                                     Ok(_) => { seen.push("closed".into()); break; }
                                     Err(_) => {
                                         if late {
-                                            if acked && done.load(std::sync::atomic::Ordering::SeqCst) { break; }
+                                            if acked && done.load(std::sync::atomic::Ordering::SeqCst) { quiet_after_done += 1; if quiet_after_done >= 4 { break; } }
                                             if started.elapsed() > Duration::from_secs(40) { seen.push("timeout".into()); break; }
                                             continue;
                                         }
                                         seen.push("timeout".into()); break;
                                     }
                                 };
+                                quiet_after_done = 0;
                                 let v: Value = serde_json::from_str(&l).unwrap_or(Value::Null);
                                 if let Some(a) = v.get("ack") {
                                     if a["transactionId"] == json!(7) {
